@@ -355,22 +355,21 @@ def nphStatus (cfg : Cfg) (s : Bytes) : Option Nat :=
     else none
   else none
 
+/-- the field lines of a response head, then CGI/1.1: a Location without status means 302 -/
+def applyLines (cfg : Cfg) (st : St) (lines : List Bytes) : St :=
+  let st1 := lines.foldl (applyLine cfg) st
+  if st1.status = 0 && hasHdr st1.headers nLocation then { st1 with status := 302 } else st1
+
 /-- http_response_process_headers() -/
 def processHeaders (cfg : Cfg) (st : St) (buf : Bytes) (lines : List Bytes) (isNph : Bool) : St :=
   if isNph then
     match nphStatus cfg buf with
-    | some c =>
-      let st1 := (lines.drop 1).foldl (applyLine cfg) { st with status := c }
-      if st1.status = 0 && hasHdr st1.headers nLocation then { st1 with status := 302 } else st1
+    | some c => applyLines cfg { st with status := c } (lines.drop 1)
     | none =>
       if st.status = 0 then { st with status := 502, handler := false }
-      else
-        let st1 := lines.foldl (applyLine cfg) st
-        if st1.status = 0 && hasHdr st1.headers nLocation then { st1 with status := 302 } else st1
+      else applyLines cfg st lines
   else if cfg.be = .proxy then { st with status := 502, handler := false }
-  else
-    let st1 := lines.foldl (applyLine cfg) st
-    if st1.status = 0 && hasHdr st1.headers nLocation then { st1 with status := 302 } else st1
+  else applyLines cfg st lines
 
 /-- http_header_parse_hoff(): complete lines in front of the terminating empty line and the
     length of the header block including that line (0 = not complete) -/
